@@ -136,12 +136,22 @@ class _GrammarFile(Model):
         self._text = text
 
     def read(self):
+        if getattr(self, "_closed", False):
+            raise ModelRaise("ValueError", "I/O operation on closed file.")
         return self._text
+
+    def close(self):
+        self._closed = True
+
+    @property
+    def closed(self):
+        return getattr(self, "_closed", False)
 
     def __enter__(self):
         return self
 
     def __exit__(self, *a):
+        self._closed = True
         return False
 
 
